@@ -169,9 +169,37 @@ def run(prop: str, tier: str, seed: int) -> int:
         if len(rep.samples) < 2:
             rep.samples.append({"M": cases[-1]["M"], "plan": plans[0]["plan"], "length": plans[0]["length"],
                                 "bye_replacements": plans[0]["byes"][:3]})
+    # distances far beyond 32 bits (the instance admits bounds up to 10^15): plans without byes on scale * M0
+    from ..core import big
+    for k in range({"quick": 20, "thorough": 150}[tier]):
+        n = rng.choice([4, 4, 6, 8])
+        rounds = rng.choice([1, 2])
+        scale = rng.choice([10 ** 8, 10 ** 9, 3 * 10 ** 9, 10 ** 10])
+        M0 = [[0 if i == j else rng.randint(1, 9) for j in range(n)] for i in range(n)]
+        if rng.random() < 0.5:
+            for i in range(n):
+                for j in range(i):
+                    M0[i][j] = M0[j][i]
+        try:
+            inst = tp.make_instance(n, rounds, {}, matrix=[[v * scale for v in r] for r in M0])
+        except ValueError:
+            continue
+        lo = LenObj(inst)
+        plans = []
+        for _ in range(3):
+            rows = tp.circle_schedule(n, rounds, rng) if rng.random() < 0.5 else \
+                tp.random_plan(rng, n, (n - 1) * rounds, "consistent")
+            lo.y[:, :] = np.array(rows, dtype=np.int64)
+            v = int(lo.obj.evaluate(lo.y))
+            plans.append({"plan": rows, "blength": big(v) if v >= 0 else [-1]})
+        cases.append({"id": f"huge-distances-{k}", "scale": 1, "bscale": big(scale), "M": M0, "plans": plans,
+                      "blb": big(max(0, int(lo.obj.lower_bound()))), "bub": big(max(0, int(lo.obj.upper_bound()))),
+                      "cfg": tp.cfg_of(inst), "opt": -1, "lb": 0, "ub": 0})
+        rep.family("huge-distances(no byes, scaled matrices)", len(plans), len(plans))
+        rep.nontrivial += len(plans)
     vs = core.validate("ttp/Trace_TTP", cases, cfg_text=_trace_cfg(), shards=14)
     core.classify(rep, vs, {c["id"]: c for c in cases}, family="recorded")
-    rep.traces += sum(len(c["plans"]) + sum(len(p["byes"]) for p in c["plans"]) for c in cases)
+    rep.traces += sum(len(c["plans"]) + sum(len(p.get("byes", [])) for p in c["plans"]) for c in cases)
     rep.evaluations = rep.traces
     rep.rule = ("(a) [thorough] every feasible 4-team double round-robin plan (set computed by TLC) on the seven "
                 "shipped 4-team instances; (b) seeded random matrices (symmetric/asymmetric, zeros) and plans "
@@ -181,6 +209,21 @@ def run(prop: str, tier: str, seed: int) -> int:
 
 
 def replay(prop: str, case: dict) -> dict:
+    if "bscale" in case:      # scaled huge-distance case: evaluate the same plans on the same scaled matrix again
+        from ..core import big
+        sc = core.unbig(case["bscale"])
+        c = case["cfg"]
+        inst = tp.make_instance(c["n"], c["rounds"], {}, matrix=[[v * sc for v in r] for r in case["M"]])
+        lo = LenObj(inst)
+        plans = []
+        for p in case["plans"]:
+            lo.y[:, :] = np.array(p["plan"], dtype=np.int64)
+            v = int(lo.obj.evaluate(lo.y))
+            plans.append({"plan": p["plan"], "blength": big(v) if v >= 0 else [-1]})
+        rec = {**case, "id": "replay", "plans": plans,
+               "blb": big(max(0, int(lo.obj.lower_bound()))), "bub": big(max(0, int(lo.obj.upper_bound())))}
+        vs = core.validate("ttp/Trace_TTP", [rec], cfg_text=_trace_cfg())
+        return {"clause": vs["replay"], "case": rec}
     c = case["cfg"]
     inst = tp.make_instance(c["n"], c["rounds"], c, matrix=case["M"])
     lo = LenObj(inst)
